@@ -80,6 +80,45 @@ func structField(c *core.Ctx, rel, typ, field string) *types.Var {
 	return nil
 }
 
+// guardedFieldTypes: the type (package qualifiers dropped) of the guarded fields whose type is unique in their struct, so that
+// a renamed field is still found.
+var guardedFieldTypes = map[string]string{
+	"Store.moduleList":                       "*ModuleInstance",
+	"Store.nameToModule":                     "map[string]*ModuleInstance",
+	"Store.typeIDs":                          "map[string]FunctionTypeID",
+	"TableInstance.involvingModuleInstances": "[]*ModuleInstance",
+	"engine.compiledFunctions":               "map[[32]byte][]compiledFunction",
+	"engine.compiledFunctionsRefs":           "map[[32]byte]int",
+	"engine.compiledModules":                 "map[[32]byte]*compiledModule",
+	"engine.sortedCompiledModules":           "[]*compiledModule",
+}
+
+func uniqueFieldOfType(c *core.Ctx, rel, typ, hint string) *types.Var {
+	p := c.Pkg(rel)
+	if p == nil {
+		return nil
+	}
+	o := p.Types.Scope().Lookup(typ)
+	if o == nil {
+		return nil
+	}
+	st, ok := o.Type().Underlying().(*types.Struct)
+	if !ok {
+		return nil
+	}
+	var found *types.Var
+	for i := 0; i < st.NumFields(); i++ {
+		ts := types.TypeString(st.Field(i).Type(), func(*types.Package) string { return "" })
+		if ts == hint || strings.ReplaceAll(ts, "wasm.", "") == hint {
+			if found != nil {
+				return nil
+			}
+			found = st.Field(i)
+		}
+	}
+	return found
+}
+
 // mutexField finds the mutex of a struct: the field of that name, or – when it was renamed – the only sync.Mutex /
 // sync.RWMutex field of the struct, or among several the one whose name shares the longest prefix with hint (≥ 4 chars).
 func mutexField(c *core.Ctx, rel, typ, name, hint string) *types.Var {
@@ -213,6 +252,12 @@ func runC10(c *core.Ctx) {
 			continue // package not built in this configuration (e.g. wazevo on unsupported platforms)
 		}
 		f := structField(c, e.rel, e.typ, e.field)
+		if f == nil {
+			// renamed: the only field of the struct with the type this entry is known to have
+			if hint, ok := guardedFieldTypes[e.typ+"."+e.field]; ok {
+				f = uniqueFieldOfType(c, e.rel, e.typ, hint)
+			}
+		}
 		mu := mutexField(c, e.muRel, e.muTyp, e.mu, e.field)
 		if f == nil || mu == nil {
 			c.Undecided("R10.1", "guard-table:"+e.typ+"."+e.field, 0, "guarded field or its mutex not found (renamed?): update the table in checker/props/c10.go")
